@@ -2,12 +2,12 @@ package main
 
 import (
 	"fmt"
-	"strings"
 	"go/ast"
 	"go/constant"
 	"go/token"
 	"go/types"
 	"sort"
+	"strings"
 
 	"golang.org/x/tools/go/ssa"
 )
